@@ -182,8 +182,48 @@ Fixpoint wf_ty (t : ty) : bool :=
   | _ => true
   end.
 
-Definition wf_univ (u : univ) : bool :=
-  forallb (fun cd => forallb (fun fd => wf_ty (fd_ty fd)) (cd_fields cd)) (u_classes u).
+(* by-type dispatch sends an integer to the `int` alternative even when `float` is listed first (the results are
+   then Python-equal, 1 == 1.0, not identical): the exact theorem excludes that ordering *)
+Fixpoint float_before_int (l : list (option pcls)) (seen_float : bool) : bool :=
+  match l with
+  | [] => false
+  | Some CFloat :: r => float_before_int r true
+  | Some CInt :: r => seen_float || float_before_int r seen_float
+  | _ :: r => float_before_int r seen_float
+  end.
+
+Fixpoint union_order_ok (t : ty) : bool :=
+  match t with
+  | TColl _ t' | TCon _ t' => union_order_ok t'
+  | TTuple ts => forallb union_order_ok ts
+  | TMap kt vt => union_order_ok kt && union_order_ok vt
+  | TUnion ts => forallb union_order_ok ts && negb (float_before_int (map ty_cls ts) false)
+  | _ => true
+  end.
+
+Fixpoint nodup_strs (l : list string) : bool :=
+  match l with [] => true | x :: r => negb (existsb (String.eqb x) r) && nodup_strs r end.
+
+(* data as produced by json.loads / any Python dict: the keys of an object are distinct *)
+Fixpoint wf_data (d : pyval) : bool :=
+  match d with
+  | PList l => forallb wf_data l
+  | PDict kvs => nodup_strs (map fst kvs)
+                 && (fix go (kvs : list (string * pyval)) : bool :=
+                       match kvs with [] => true | (_, x) :: r => wf_data x && go r end) kvs
+  | _ => true
+  end.
+
+Definition wf_cls (o : dopts) (e_ok : bool) (cd : cdef) : bool :=
+  forallb (fun fd => wf_ty (fd_ty fd) && union_order_ok (fd_ty fd)) (cd_fields cd)
+  && nodup_strs (map (fun fd => o_aliaser o (fd_alias fd)) (cd_fields cd))
+  && nodup_strs (map fd_name (cd_fields cd)).
+
+(* well-formed universe: hashable set members, distinct aliases (under the aliaser in use) and names per class,
+   no enum member valued None *)
+Definition wf_univ (u : univ) (o : dopts) : bool :=
+  forallb (wf_cls o true) (u_classes u)
+  && forallb (fun vs => negb (existsb (prim_eqb LNone) vs)) (u_enums u).
 
 (* comparison used by the harness: what the implementation did vs what the specification prescribes *)
 Definition spec_matches_impl (s : sres) (impl_ok : option value) : bool :=
